@@ -342,6 +342,16 @@ func registerMath(e *Engine) {
 			}
 			raw := App("decRawOfStr", SInt, st)
 			p.Assume(And(Lt(raw, IntC(decMaxB)), Gt(raw, IntC(new(big.Int).Neg(decMaxB)))))
+			if st.op == "v" {
+				for _, in := range p.inputs {
+					if in.T == st {
+						if p.decStr == nil {
+							p.decStr = map[string]*Term{}
+						}
+						p.decStr[in.Name] = raw
+					}
+				}
+			}
 			return tuple(VDec{T: raw}, nilErr)
 		}
 		r, ok := new(big.Rat).SetString(s)
